@@ -627,13 +627,16 @@ def align_wcs(wcscat, refcat=None, ref_tpwcs=None, enforce_user_order=True,
                             "'astropy.table.Table'")
 
     # find group ID and assign images to groups:
+    # (each image without a group ID forms its own group at the position
+    # at which it appears in the input list)
     grouped_images = collections.defaultdict(list)
-    for wcat in wcs_im_cats:
-        grouped_images[wcat.group_id].append(wcat)
+    for k, wcat in enumerate(wcs_im_cats):
+        key = (None, k) if wcat.group_id is None else (wcat.group_id, )
+        grouped_images[key].append(wcat)
 
     # create WCSImageCatalog and WCSGroupCatalog:
     wcs_gcat = []
-    for group_id, wcatalogs in grouped_images.items():
+    for (group_id, *_), wcatalogs in grouped_images.items():
         if group_id is None:
             for wcat in wcatalogs:
                 wcs_gcat.append(
